@@ -111,3 +111,47 @@ package band
 //@   loop 3: step skip: !chMask[rangeindex] ==> len(out) == prev(len(out))
 //@   loop 3: step keep: forall j int :: 0 <= j && j < prev(len(out)) ==> out[j] == prev(out[j])
 //@   loop 3: decreases len(chMask) - rangeindex
+
+// us902Band variant (ChMaskCntl 6 / 7 switch all 125 kHz channels on / off): totality, frame and the result recurrence;
+// the fixed 72-channel plan is a precondition (the constructor builds it, AddChannel only adds)
+//@ func (*us902Band).GetEnabledUplinkChannelIndicesForLinkADRReqPayloads
+//@   props C14
+//@   requires plan-size: len(b.band.uplinkChannels) >= 72
+//@   modifies nothing
+//@   ensures fresh: err == nil ==> result0 == nil || fresh(result0)
+//@   loop 0: invariant idx: rangeindex >= 0 - 1 && rangeindex < len(deviceEnabledChannels) && len(chMask) == len(b.band.uplinkChannels) && fresh(chMask)
+//@   loop 0: modifies chMask[0:len(chMask)]
+//@   loop 0: decreases len(deviceEnabledChannels) - rangeindex
+//@   loop 1: invariant idx: rangeindex >= 0 - 1 && rangeindex < len(pls) && len(chMask) == len(b.band.uplinkChannels) && fresh(chMask)
+//@   loop 1: modifies chMask[0:len(chMask)], pl
+//@   loop 1: decreases len(pls) - rangeindex
+//@   loop 5: invariant idx: rangeindex >= 0 - 1 && rangeindex < len(chMask) && fresh(chMask)
+//@   loop 5: invariant out-fresh: out == nil || fresh(out)
+//@   loop 5: invariant out-len: len(out) <= rangeindex + 1
+//@   loop 5: invariant out-range: forall j int :: 0 <= j && j < len(out) ==> 0 <= out[j] && out[j] <= rangeindex && chMask[out[j]]
+//@   loop 5: step take: chMask[rangeindex] ==> len(out) == prev(len(out)) + 1 && out[len(out)-1] == rangeindex
+//@   loop 5: step skip: !chMask[rangeindex] ==> len(out) == prev(len(out))
+//@   loop 5: step keep: forall j int :: 0 <= j && j < prev(len(out)) ==> out[j] == prev(out[j])
+//@   loop 5: decreases len(chMask) - rangeindex
+
+// au915Band variant (ChMaskCntl 6 / 7 switch all 125 kHz channels on / off): totality, frame and the result recurrence;
+// the fixed 72-channel plan is a precondition (the constructor builds it, AddChannel only adds)
+//@ func (*au915Band).GetEnabledUplinkChannelIndicesForLinkADRReqPayloads
+//@   props C14
+//@   requires plan-size: len(b.band.uplinkChannels) >= 72
+//@   modifies nothing
+//@   ensures fresh: err == nil ==> result0 == nil || fresh(result0)
+//@   loop 0: invariant idx: rangeindex >= 0 - 1 && rangeindex < len(deviceEnabledChannels) && len(chMask) == len(b.band.uplinkChannels) && fresh(chMask)
+//@   loop 0: modifies chMask[0:len(chMask)]
+//@   loop 0: decreases len(deviceEnabledChannels) - rangeindex
+//@   loop 1: invariant idx: rangeindex >= 0 - 1 && rangeindex < len(pls) && len(chMask) == len(b.band.uplinkChannels) && fresh(chMask)
+//@   loop 1: modifies chMask[0:len(chMask)], pl
+//@   loop 1: decreases len(pls) - rangeindex
+//@   loop 5: invariant idx: rangeindex >= 0 - 1 && rangeindex < len(chMask) && fresh(chMask)
+//@   loop 5: invariant out-fresh: out == nil || fresh(out)
+//@   loop 5: invariant out-len: len(out) <= rangeindex + 1
+//@   loop 5: invariant out-range: forall j int :: 0 <= j && j < len(out) ==> 0 <= out[j] && out[j] <= rangeindex && chMask[out[j]]
+//@   loop 5: step take: chMask[rangeindex] ==> len(out) == prev(len(out)) + 1 && out[len(out)-1] == rangeindex
+//@   loop 5: step skip: !chMask[rangeindex] ==> len(out) == prev(len(out))
+//@   loop 5: step keep: forall j int :: 0 <= j && j < prev(len(out)) ==> out[j] == prev(out[j])
+//@   loop 5: decreases len(chMask) - rangeindex
